@@ -41,21 +41,25 @@ def struct_cases(tier, seed, *, both_readers=True, keep=None):
                     yield _case(label, T, cfg)
         return
     ptrs = ["uint8", "uint16", "uint32", "uint64"]
-    for label, T in G.sequences(G.FULL, 2):
-        if keep(label, T):
-            for i, cfg in enumerate(full8):
-                cfg = dict(cfg, pointer=ptrs[(i + len(label)) % 4]) if H.has_kind(T, ("ptr",)) else cfg
-                yield _case(label, T, cfg)
     rng = random.Random(seed)
-    n3 = 6000
-    for i in range(n3):
+    for label, T in G.sequences(G.FULL, 1):
+        if keep(label, T):
+            for cfg in full8:
+                yield _case(label, T, cfg)
+    # deeper definitions first (a sample of the program space, seeded), then every 2-member definition
+    for label, T in G.random_structs(seed, 2500):
+        if keep(label, T):
+            yield _case(label, T, dict(rng.choice(full8), pointer=rng.choice(ptrs)))
+    for i in range(8000):
         kinds = [rng.choice(G.FULL) for _ in range(3)]
         T = G.build_struct(kinds)
         if T is None:
             continue
         label = "|".join(k[0] for k in kinds)
         if keep(label, T):
-            yield _case(label, T, dict(rng.choice(full8), endian=rng.choice("<>!")))
-    for label, T in G.random_structs(seed, 1500):
-        if keep(label, T):
-            yield _case(label, T, rng.choice(full8))
+            yield _case(label, T, dict(rng.choice(full8), endian=rng.choice("<>!") if both_readers else rng.choice("<>")))
+    for label, T in G.sequences(G.FULL, 2):
+        if "|" in label and keep(label, T):
+            for i, cfg in enumerate(pair):
+                cfg = dict(cfg, pointer=ptrs[(i + len(label)) % 4]) if H.has_kind(T, ("ptr",)) else cfg
+                yield _case(label, T, cfg)
